@@ -338,6 +338,33 @@ const WAT_COMPONENTS_2: &[(&str, Option<&str>, &str)] = &[
     ),
 ];
 
+/// Third generation (appended last): components whose extern names are not plain
+/// `ns:pkg/iface@version` paths.
+const WAT_COMPONENTS_3: &[(&str, Option<&str>, &str)] = &[
+    (
+        "odd:urls",
+        None,
+        r#"(component
+  (import "url=<https://user@example.com/dep>" (func))
+  (import "locked-dep=<foo:dep@1.0.0>,integrity=<sha256-ab/dep>" (func))
+  (import "unlocked-dep=<foo:other@{>=1.0.0}>" (func))
+  (import "integrity=<sha256-abc>" (func))
+  (import "plain" (func))
+  (export "out" (func 4))
+)"#,
+    ),
+    (
+        "odd:versions",
+        Some("1.0.0-rc.1+build.5"),
+        r#"(component
+  (import "a:b/c@0.0.1" (instance (export "f" (func))))
+  (import "a:b/c@0.1.0-alpha" (instance (export "g" (func))))
+  (import "a:b/d@1.0.0+meta" (instance (export "h" (func))))
+  (export "a:b/c@0.0.1" (instance 0))
+)"#,
+    ),
+];
+
 pub const WIT_PACKAGES_2: &[(&str, Option<&str>, &str)] = &[
     (
         "solo:one",
@@ -604,6 +631,19 @@ pub fn library() -> &'static Vec<Pkg> {
                 imports,
                 exports,
                 is_component: false,
+            });
+        }
+        for (name, version, text) in WAT_COMPONENTS_3 {
+            let bytes = wat::parse_str(text)
+                .unwrap_or_else(|e| panic!("corpus component {name} does not assemble: {e:?}"));
+            let (imports, exports) = names_of(&bytes);
+            v.push(Pkg {
+                name,
+                version: *version,
+                bytes,
+                imports,
+                exports,
+                is_component: true,
             });
         }
         v
